@@ -110,6 +110,9 @@ func main() {
 					if *dump != "" {
 						fmt.Printf("      query: %s\n", dumpQuery(*dump, fv, o, i))
 					}
+					if o.Status == "error" {
+						fmt.Printf("      SMT error: %s\n", strings.ReplaceAll(truncate(o.Model, 300), "\n", " "))
+					}
 					if o.Status == "sat" && *verbose {
 						fmt.Printf("      model: %s\n", strings.ReplaceAll(truncate(o.Model, 600), "\n", " "))
 					}
